@@ -38,7 +38,7 @@ DICT_ATTRS = {"channel_params", "channel_states", "synapse_params", "synapse_sta
 STR_ATTRS = {"current_name"}
 MAPPARAMS = {"states", "params"}
 
-ALLCLS = ["Add", "Sub", "Mul", "Div", "Neg", "OfScientific", "Min", "Max", "Transc", "LT"]
+ALLCLS = ["Add", "Sub", "Mul", "Div", "Neg", "OfScientific", "Min", "Max", "Transc", "HasPi", "LT"]
 
 
 class Unsupported(Exception):
@@ -102,8 +102,8 @@ class Translator:
             raise Unsupported(e, f"constant {e.value!r}")
         if isinstance(e, ast.Name):
             if e.id == "pi":
-                ctx["classes"].add("Transc")
-                return "Transc.pi"
+                ctx["classes"].add("HasPi")
+                return "HasPi.pi"
             if e.id in ctx["vars"]:
                 return ctx["vars"][e.id]
             raise Unsupported(e, f"unknown name {e.id}")
